@@ -8,6 +8,7 @@ import (
 	"fmt"
 	"os"
 	"path/filepath"
+	"regexp"
 	"runtime"
 	"sort"
 	"strconv"
@@ -432,7 +433,35 @@ func cmdCheck(args []string) int {
 	assumptions = append(assumptions, "integers are mathematical; every arithmetic operation and integer conversion carries a discharged no-overflow obligation, so the mathematical result is the machine result",
 		"floating point: uninterpreted operations (expression equality only) unless the function has pragma 'floats real'",
 		"strings: uninterpreted sort, literals distinct; no string-language reasoning")
+	// contract-level assumptions: those of the functions this property's check touches (under contract, used as
+	// callee contract, or inlined), plus the global ones (axioms, trusted lemmas)
+	relevant := map[string]bool{}
+	for _, r := range append(append([]*FuncResult(nil), pr.results...), pr.lemmas...) {
+		relevant[r.Key] = true
+		for _, k := range r.Callees {
+			relevant[k] = true
+		}
+		for _, k := range r.Inlined {
+			relevant[k] = true
+		}
+	}
+	scanRe := regexp.MustCompile(` in (\S+) \(`)
 	for _, s := range specs.Scan {
+		if m := scanRe.FindStringSubmatch(s); m != nil && !relevant[m[1]] {
+			continue
+		}
+		if strings.HasPrefix(s, "inline ") || strings.HasPrefix(s, "trusted contract ") {
+			f := strings.Fields(s)
+			k := f[len(f)-2]
+			if strings.HasPrefix(s, "inline ") {
+				k = f[1]
+			} else {
+				k = f[2]
+			}
+			if !relevant[k] {
+				continue
+			}
+		}
 		assumptions = append(assumptions, "scan: "+s)
 	}
 	assumptions = append(assumptions, ld.notes...)
